@@ -215,7 +215,7 @@ def gen_specs(ctx, scale):
     fam += [('Lattice', [2, 2, 2], 2), ('Lattice', [3, 2, 2], 1), ('Lattice', [2, 1, 3], 1), ('Lattice', [1, 2], 2)]
     if th:
         fam += [('Lattice', [2, 3, 2], 2), ('Lattice', [2, 2, 2, 2], 1)]
-    n_ord = (4 if th else 1) * scale
+    n_ord = (3 if th else 1) * scale
     counter = 0
     for (cls, Ls, Lu) in fam:
         dim = len(Ls)
@@ -226,7 +226,7 @@ def gen_specs(ctx, scale):
         big = th and max(Ls) >= 4 and dim == 2
         if big:                     # 4x4 tier: a sample of the combinations
             combos = rng.sample(combos, 6)
-        n_here = n_ord * (len(names) + 2 if dim == 1 else (2 if not th else 1))
+        n_here = n_ord * (len(names) + 2 if dim == 1 else 1)
         for (bc, bc_MPS) in combos:
             for k in range(n_here):
                 counter += 1
@@ -247,7 +247,7 @@ def gen_specs(ctx, scale):
                 N = int(math.prod(Ls)) * Lu
                 spec = {'cls': cls, 'Ls': Ls, 'Lu': Lu, 'order': order, 'custom_perm': perm, 'bc': bc,
                         'bc_MPS': bc_MPS_, 'wrap': None, 'kind': 'regular'}
-                spec['queries'] = make_queries(rng, Ls, Lu, N, bc_MPS_ != 'finite', 4 if not th else 9,
+                spec['queries'] = make_queries(rng, Ls, Lu, N, bc_MPS_ != 'finite', 4 if not th else 6,
                                                3, extra_dx=1 if rng.random() < 0.2 else 0)
                 spec['queries']['orderings'] = [names[(counter + 1) % len(names)], random_order_spec(cls, dim, Lu, rng, ctor=False)]
                 specs.append(spec)
@@ -771,7 +771,8 @@ def oracle_one(args):
                         fail('mps2lat_values(axes=[-1,0]) misplaces values', 'C19:values')
             counts.append(('values', [label], N > 1, None))
     vm = res['values_masked']
-    x0_slowest = all(r[0] == k * Ls[0] // N for k, r in enumerate(order))     # the layout the axis sizing assumes
+    # the layout the axis sizing assumes: rings of equal size, one after the other
+    x0_slowest = N % Ls[0] == 0 and all(r[0] == k // (N // Ls[0]) for k, r in enumerate(order))
     if isinstance(vm, dict):
         fail('mps2lat_values_masked raised %s' % vm['error'],
              MK_MASKED if (inf and not x0_slowest and 'IndexError' in vm['error']) else 'C19:masked-raise')
@@ -945,10 +946,10 @@ def coq_case(spec, res, rng, n_cq):
             l2m.append((site_lit(x), common.Some(i)))
         else:
             l2m.append((site_lit(x), None))      # _REMOVED
-    if len(m2l) > 60:
-        m2l = rng.sample(m2l, 60)
-    if len(l2m) > 80:
-        l2m = rng.sample(l2m, 80)
+    if len(m2l) > 40:
+        m2l = rng.sample(m2l, 40)
+    if len(l2m) > 50:
+        l2m = rng.sample(l2m, 50)
     cqs = []
     idxs = [k for k, r in enumerate(res['couplings']) if 'error' not in r]
     nz = [k for k in idxs if res['couplings'][k]['i']]
@@ -1003,7 +1004,10 @@ def coq_order_cases(specs, results):
 
 def main(ctx):
     rng = ctx.rng
+    import time
+    t0 = time.time()
     ctx.proof = common.check_proofs('C19')
+    tim = {'proofs': round(time.time() - t0, 1)}
     scale = 1 if ctx.proof.ok else 2          # intensified search when an obligation is broken
     specs = [c['case'] for c in common.corpus_cases('C19')]
     if ctx.replay_in:
@@ -1011,7 +1015,8 @@ def main(ctx):
         doc = json.load(open(ctx.replay_in))
         if doc.get('input') and doc['input'].get('spec'):
             specs = [doc['input']['spec']] + specs
-    specs += gen_specs(ctx, scale)
+    if not (ctx.replay_in and specs):       # a replay runs the recorded lattice only
+        specs += gen_specs(ctx, scale)
     # ---- implementation
     nchunk = common.NPROC * 2
     order_ix = sorted(range(len(specs)), key=lambda k: -len(specs[k]['queries']['couplings']))
@@ -1028,6 +1033,7 @@ def main(ctx):
             return ctx.finish(RULE)
         for k, x in zip(ch, r):
             results[k] = x
+    tim['impl'] = round(time.time() - t0, 1)
     # ---- oracle (parallel, pure python)
     with multiprocessing.get_context('fork').Pool(max(2, common.NPROC // 2)) as pool:
         orc = pool.map(oracle_one, list(zip(specs, results)), chunksize=8)
@@ -1042,8 +1048,9 @@ def main(ctx):
                 ctx.fail('correspondence', what, {'spec': small})
             else:
                 ctx.fail('oracle', label + ': ' + what, {'spec': spec, 'label': label}, match_key=mk)
+    tim['oracle'] = round(time.time() - t0, 1)
     # ---- model <-> implementation inside Coq
-    n_cq = ctx.pick(10, 24)
+    n_cq = ctx.pick(8, 24)
     coq_cases, coq_idx = [], []
     for k, (spec, res) in enumerate(zip(specs, results)):
         if spec['kind'] == 'geometry':
@@ -1070,6 +1077,8 @@ def main(ctx):
         ctx.fail('correspondence', 'Model/Lattice.v get_order and Lattice.ordering disagree on %s' % (oinfo[b],), oinfo[b])
     for i in oinfo:
         ctx.count('model-order', i, nontrivial=True)
+    tim['coq'] = round(time.time() - t0, 1)
+    ctx.cov['phase_end_seconds'] = tim
     ctx.cov['traces_validated_against_impl'] = len(coq_cases) + len(ocases)
     ctx.cov['input_distribution'] = hist
     ctx.assumptions += [
